@@ -9,6 +9,8 @@
  *                                 Box_Del/Box_Assign/Box_Ref/Box_Deref), B = the library's Box (calloc), a = anchor (its Mark
  *                                 instance reports the held objects); how s = new, r = new_root, w = new_raw;
  *                                 order = pending order claimed by the generator if the registration collects
+ *   o <id> <target|->             ref(box, target): re-point a Box / PBox (this is how ownership cycles are built: a ring of
+ *                                 boxes, a box owning itself); the old pointee is just dropped
  *   d <id> <how>                  del / del_root / del_raw
  *   c <marks...> ; <order...>     white-box collection: set exactly these mark bits, GC_Sweep
  *   g ; <order...>                GC_Mark + GC_Sweep (the real mark phase: roots, anchor, scrubbed stack)
@@ -339,6 +341,16 @@ static int run_history(void) {
       if (*e1 || id < 0 || id >= MAXID || !objs[id].allocated || objs[id].ptr == NULL) { O("bad-op"); continue; }
       do_del((int)id, toks[2][0]);
       oracle_after_op(); print_obs("d", 1);
+    } else if (strcmp(toks[0], "o") == 0 && ntok == 3) {
+      char* e1; long id = strtol(toks[1], &e1, 10); long tg = -1; int ok = !*e1 && id >= 0 && id < MAXID && objs[id].allocated
+        && (objs[id].kind == 'b' || objs[id].kind == 'B');
+      if (ok && strcmp(toks[2], "-") != 0) { char* e2; tg = strtol(toks[2], &e2, 10); ok = !*e2 && tg >= 0 && tg < MAXID && objs[tg].allocated; }
+      if (!ok) { O("bad-op"); continue; }
+      if (objs[id].owned >= 0 && objs[objs[id].owned].owner == id) objs[objs[id].owned].owner = -1;
+      objs[id].owned = (int)tg;
+      if (tg >= 0) objs[tg].owner = (int)id;
+      ref(objs[id].ptr, tg >= 0 ? objs[tg].ptr : NULL);
+      print_obs("o", 1);
     } else if (strcmp(toks[0], "c") == 0) {
       if (!parse_ids(toks, ntok, 1, ids, &n1, &nx) || !parse_ids(toks, ntok, nx, ids2, &n2, &nx)) { O("bad-op"); continue; }
       do_collect(ids, n1);
